@@ -110,7 +110,7 @@ def check(pid, tier, seed):
         if P.nontrivial(case, res):
             sigs.add(P.signature(case))
         if not ok:
-            kf = match_known(pid, case.get("tags", {}), known)
+            kf = match_known(pid, case.get("tags", {}), known, msg)
             if kf:
                 known_hits.setdefault(kf["id"], kf)
             else:
